@@ -50,10 +50,13 @@ func (s *shape) String() string {
 			c = " c"
 		}
 		return "for" + c + " {" + s.Kids[0].String() + "}"
-	case "switch":
+	case "switch", "typeswitch":
 		d := "case 2"
 		if s.Default {
 			d = "default"
+		}
+		if s.K == "typeswitch" {
+			return "switch x.(type) {case A: " + s.Kids[0].String() + "; " + d + ": " + s.Kids[1].String() + "}"
 		}
 		return "switch x {case 1: " + s.Kids[0].String() + "; " + d + ": " + s.Kids[1].String() + "}"
 	case "labeled":
@@ -107,7 +110,7 @@ func refTerminating(s *shape) bool {
 		return len(s.Kids) == 2 && refListTerminating(flatten(s.Kids[0])) && refTerminating(s.Kids[1])
 	case "for":
 		return !s.Cond && !refHasBreak(s.Kids[0])
-	case "switch":
+	case "switch", "typeswitch":
 		if !s.Default {
 			return false
 		}
@@ -193,7 +196,7 @@ func (b *shapeBuilder) build(s *shape) AV {
 			cond = b.node("Ident", map[string]AV{"Name": mkString("c")})
 		}
 		return b.node("ForStmt", map[string]AV{"Init": Nil{}, "Cond": cond, "Post": Nil{}, "Body": b.blockPtr(s.Kids[0])})
-	case "switch":
+	case "switch", "typeswitch":
 		c0 := b.node("CaseClause", map[string]AV{"List": SliceV{Elems: []AV{b.node("Ident", map[string]AV{"Name": mkString("one")})}}, "Body": b.list(s.Kids[0])})
 		var l1 AV = SliceV{Elems: []AV{b.node("Ident", map[string]AV{"Name": mkString("two")})}}
 		if s.Default {
@@ -201,6 +204,9 @@ func (b *shapeBuilder) build(s *shape) AV {
 		}
 		c1 := b.node("CaseClause", map[string]AV{"List": l1, "Body": b.list(s.Kids[1])})
 		body := b.node("BlockStmt", map[string]AV{"List": SliceV{Elems: []AV{c0, c1}}}).(Dyn).V
+		if s.K == "typeswitch" {
+			return b.node("TypeSwitchStmt", map[string]AV{"Init": Nil{}, "Assign": b.node("ExprStmt", map[string]AV{"X": b.node("Ident", map[string]AV{"Name": mkString("x")})}), "Body": body})
+		}
 		return b.node("SwitchStmt", map[string]AV{"Init": Nil{}, "Tag": b.node("Ident", map[string]AV{"Name": mkString("x")}), "Body": body})
 	case "select":
 		cc := b.node("CommClause", map[string]AV{"Comm": Nil{}, "Body": b.list(s.Kids[0])})
@@ -280,6 +286,13 @@ func termShapes() []*shape {
 				&shape{K: "switch", Default: true, Kids: []*shape{{K: "block", Kids: []*shape{ch, ret}}, ret}},
 				&shape{K: "select", Kids: []*shape{{K: "block", Kids: []*shape{ch, ret}}}},
 			)
+		}
+	}
+	// type switches are switches for this purpose (a break inside refers to them)
+	for _, a := range []*shape{{K: "return"}, {K: "expr"}, {K: "break"}, {K: "panic"}} {
+		for _, d := range []bool{true, false} {
+			ts := &shape{K: "typeswitch", Default: d, Kids: []*shape{a, ret}}
+			all = append(all, ts, &shape{K: "for", Kids: []*shape{ts}}, &shape{K: "block", Kids: []*shape{ex, ts}}, &shape{K: "if", Kids: []*shape{ts, ret}})
 		}
 	}
 	// every other statement kind a generator body may contain, in the positions the checker looks at
